@@ -145,7 +145,8 @@ def run_program(ops: list[str]):
                 cs = [counter + 1, counter + 2, counter + 3]
                 counter += 3
                 a = np.array(cs, dtype=float)
-                st.append(X=a, Y=7.5, Z=2.25, age=3.0, tag=9, X0=a, born=T0 + 99)
+                # every legal way to give one value for all: a scalar, a length-one array, a length-one list
+                st.append(X=a, Y=np.array([7.5]), Z=[2.25], age=3.0, tag=np.array([9]), X0=a, born=T0 + 99)
                 ref.append([dict(X=float(c), Y=7.5, Z=2.25, age=3.0, tag=9, alive=True, active=True,
                                  X0=float(c), born=T0 + 99) for c in cs])
             elif op == "AD":
